@@ -413,7 +413,7 @@ class TwoDResponseCalculator:
             # Sloping the end of the data down to 0 to there isn't a hard cutoff at the end of the data
             from scipy import signal as sig
             window = 20
-            tuc = sig.tukey(window * 2, 1, sym = False)
+            tuc = sig.windows.tukey(window * 2, 1, sym = False)
             for k in range(len(resp_r)):
                 resp_r[len(resp_r)-window:,k] *= tuc[window:]
                 resp_r[k,len(resp_r)-window:] *= tuc[window:]
